@@ -31,6 +31,14 @@ inductive Instr
   | SHRL (imm : Nat) (dst : Reg)
   | MOVQst (src base : Reg)
   | MOVQimm (imm : Int) (base : Reg)
+  | MOVB (src dst : Reg)            -- low byte, upper bits of `dst` kept
+  | MOVQri (imm : Nat) (dst : Reg)  -- MOVQ $imm, dst
+  | SALQ (cnt dst : Reg)            -- count in CL, masked to 6 bits
+  | SARQ (cnt dst : Reg)
+  | SUBQi (imm : Nat) (dst : Reg)
+  | SUBQ (src dst : Reg)
+  | ANDQ (src dst : Reg)
+  | POPCNTL (src dst : Reg)
   | JEQ (l : String) | JZ (l : String) | JNZ (l : String) | JAE (l : String) | JMP (l : String)
   | RET
   deriving Repr
@@ -63,6 +71,11 @@ def firstBit (v : Nat) : Nat → Nat → Option Nat
 /-- a displacement as a 64-bit two's-complement addend -/
 def dispN (d : Int) : Nat := if d < 0 then W64 - (-d).toNat else d.toNat
 
+/-- number of set bits among bits `j, …, j+n-1` -/
+def cntBits (v : Nat) : Nat → Nat → Nat
+  | _, 0 => 0
+  | j, n+1 => (if v.testBit j then 1 else 0) + cntBits v (j + 1) n
+
 def addr (s : St) (disp : Int) (base : Reg) (idx : Option Reg) : Nat :=
   (s.r base + (match idx with | some i => s.r i | none => 0) + dispN disp) % W64
 
@@ -89,6 +102,17 @@ def step (s : St) : Instr → Option (St × Option String)
   | .SHRL imm dst => some (setR s dst ((s.r dst % W32) >>> (imm % 32)), none)
   | .MOVQst src _ => some ({ s with out := some (if s.r src < 2 ^ 63 then (s.r src : Int) else (s.r src : Int) - (W64 : Int)) }, none)
   | .MOVQimm imm _ => some ({ s with out := some imm }, none)
+  | .MOVB src dst => some (setR s dst (s.r dst / 256 * 256 + s.r src % 256), none)
+  | .MOVQri imm dst => some (setR s dst (imm % W64), none)
+  | .SALQ cnt dst => some (setR s dst ((s.r dst <<< (s.r cnt % 64)) % W64), none)
+  | .SARQ cnt dst =>
+    let v := s.r dst
+    let c := s.r cnt % 64
+    some (setR s dst (if v < 2 ^ 63 then v >>> c else W64 - 1 - ((W64 - 1 - v) >>> c)), none)
+  | .SUBQi imm dst => let v := (s.r dst + W64 - imm % W64) % W64; some ({ setR s dst v with zf := v == 0 }, none)
+  | .SUBQ src dst => let v := (s.r dst + W64 - s.r src % W64) % W64; some ({ setR s dst v with zf := v == 0 }, none)
+  | .ANDQ src dst => let v := s.r dst &&& s.r src; some ({ setR s dst v with zf := v == 0, cf := false }, none)
+  | .POPCNTL src dst => let v := cntBits (s.r src % W32) 0 32; some ({ setR s dst v with zf := v == 0, cf := false }, none)
   | .JEQ l => some (s, if s.zf then some l else none)
   | .JZ l => some (s, if s.zf then some l else none)
   | .JNZ l => some (s, if s.zf then none else some l)
